@@ -387,6 +387,36 @@ func runCollectionComplete(c *Ctx) {
 		return true
 	})
 	if loop == nil {
+		// a loop that counts turns instead of collected connections, around a select that appends to the collection?
+		var counted *ast.ForStmt
+		InspectNoLits(f.Body, func(m ast.Node) bool {
+			fs, ok := m.(*ast.ForStmt)
+			if !ok || fs.Cond == nil || fs.Post == nil || counted != nil {
+				return true
+			}
+			collects := false
+			ast.Inspect(fs.Body, func(k ast.Node) bool {
+				if as, ok := k.(*ast.AssignStmt); ok && len(as.Rhs) == 1 {
+					if call, ok := ast.Unparen(as.Rhs[0]).(*ast.CallExpr); ok {
+						if id, ok := ast.Unparen(call.Fun).(*ast.Ident); ok && id.Name == "append" {
+							if t := info.TypeOf(as.Rhs[0]); t != nil && strings.Contains(t.String(), "Conn") {
+								collects = true
+							}
+						}
+					}
+				}
+				return true
+			})
+			if collects {
+				counted = fs
+			}
+			return true
+		})
+		if counted != nil {
+			c.Bad("collection-complete/loop", counted.Pos(), "acceptExtraConns collects its connections in a loop bounded by a count of turns ("+types.ExprString(counted.Cond)+"), not by the number of connections it holds: a candidate that fails its authentication "+
+				"(a connection the sender abandoned while racing its dials) uses up a turn, the receiver stops one connection short and ends the accept loop - the sender's last extra connection is established and never served, the two sides disagree on the set of connections")
+			return
+		}
 		c.Unknown("collection-complete/loop", f.Pos(), "cannot find the collecting loop `for len(conns) < extra`")
 		return
 	}
